@@ -98,5 +98,16 @@ claim(
     "import of generated packages is not decided.",
     TB,
 )
+claim(
+    "C08",
+    "table agreement between the JSON writers and readers extracted from the AST (key sets with emission conditions from CFG "
+    "must-pass/dominance, constructor keywords), coverage of expression-typed fields by the re-parenting pass, enum revival, decoder "
+    "branch dominance, def-use of `full` through the encoder and both arms of the CLI dump",
+    "For every object kind, Parameter, Decorator and Docstring: required reader keys are always written, omittable writer keys are read "
+    "optionally, nothing written is ignored and nothing read is unwritable; every Expr-typed field is re-parented after reload; enums "
+    "are revived; expression (de)serialisation is symmetric; output is deterministic and `full` reaches every serialisation path; an "
+    "alias writes its own target path; `cls` is tested before `kind`. Byte-identical re-serialisation over generated trees is not decided.",
+    TB,
+)
 for _p in [f"C{n:02d}" for n in range(1, 20) if f"C{n:02d}" not in CLAIMED]:
     NOT_YET[_p] = "check under construction in this round (static rules designed in DESIGN.md section 3; not yet registered)"
